@@ -110,7 +110,13 @@ func c11rCheck(env *c11rEnv, x *xsched.Exec) []vrt.Finding {
 }
 
 func TestVerifC11ResetRace(t *testing.T) {
-	r := vrt.Start("C11")
+	// The unit also serves C13 (during an update a hash list serves its
+	// previous or its new complete content): the driver then sets VERIF_PROP.
+	prop := "C11"
+	if p := os.Getenv("VERIF_PROP"); p != "" {
+		prop = p
+	}
+	r := vrt.Start(prop)
 	var rc c11rCase
 	if r.ReplayCase("reset-race", &rc) {
 		var env *c11rEnv
